@@ -23,7 +23,8 @@ Definition ref_has_ext (u : string) : bool := ends_with_s u ".scss" || ends_with
 (* the file a load denotes: the first existing documented candidate next to the importing file;
    failing that, the url unchanged in the base directory (the only load path of these worlds) *)
 Definition ref_resolve_at (dir : string) (k : kind) (u : string) : option string :=
-  let url := dir ++ u in
+  (* `.`, `..` and empty segments of a url are resolved lexically, as for any url (RFC 3986 5.2.4) *)
+  let url := normalize (dir ++ u) in
   if ref_has_ext url then fs_isfile files url
   else let (b, n) := split_dir url in
        first_some (fun c => fs_isfile files (spec_name b n c)) (spec_cands (is_import k)).
